@@ -218,11 +218,12 @@ def main(argv=None):
 
     # ----- inconclusive?
     floors = getattr(mod, "FLOORS", {}).get(tier, {})
-    missed = {
-        name: (counters.get(name, 0), need)
-        for name, need in floors.items()
-        if counters.get(name, 0) < need
-    }
+    def _observed(name):
+        if name.startswith("distinct:"):
+            return len(distinct.get(name[len("distinct:"):], ()))
+        return counters.get(name, 0)
+
+    missed = {name: (_observed(name), need) for name, need in floors.items() if _observed(name) < need}
     inconclusive = bool(missed) or timed_out > 0
     if args.replay or args.case is not None:
         inconclusive = False
